@@ -353,21 +353,41 @@ PROPERTIES["C17"] = {
 }
 
 PROPERTIES["C15"] = {
-    "level": "model_checking",
-    "level_text": "bounded model checking of the lifted content-hash kernel of the tensor stream format: for all payloads of <= 3 elements (<= 4 bytes for uint8) and every alteration of the LAST element the stored hash changes, so the reader's hash comparison rejects it; the same obligation for NON-final elements is false on the real code and recorded as a known finding",
-    "level_note": LIFT_NOTE,
-    "technique": LIFT_TECH,
-    "explanation": "C15 (payload-corruption clause, hash kernel): nano::detail::hash<T>/hash_combine lifted and decided bit-precisely for int64, float64 (as bits), int32 and uint8 payloads.",
-    "assumptions": ["payload length <= 3 elements (uint8: <= 4)"],
-    "bounds": {"elements": "<= 3 (uint8: 4)", "unwind": "4..6"},
-    "outside": ["round-trip and truncation rejection of nano::read/write(std::istream&, tensor) and of all model-level readers (std::istream, virtual factories, strings of type ids): not lifted (libstdc++ stream internals); see DESIGN.md",
-                "bit-identical predictions of re-read models"],
+    "level": "other",
+    "level_text": "SBV unit: bounded symbolic execution of the real tensor writer/reader through real std::istream/std::ostream objects: (a) write;read is the identity for ALL contents (shapes enumerated), (b) for EVERY byte buffer of the configured length (hence every truncation and every corruption of header and payload, dims bounded) the real reader accepts exactly what an independently written reference reader of the documented layout accepts and decodes the same shape and contents, (c) every strict prefix of a valid stream is rejected, (d) any alteration of the last payload element is rejected. LIFT-C unit: bounded model checking of the lifted hash kernel (last-element injectivity; the non-final collision is a known finding)",
+    "level_note": SBV_NOTE + "; " + LIFT_NOTE,
+    "technique": SBV_TECH + "; hash kernel additionally by " + LIFT_TECH,
+    "explanation": "C15 (tensor clauses): nano::write / nano::read of tensors executed symbolically on in-memory stream buffers (std::istream::read / std::ostream::write run natively, their byte transfers are mirrored in the symbolic shadow memory); nano::detail::hash lifted to C for CBMC.",
+    "assumptions": SBV_ASSUME + ["streams are std::istream/std::ostream over a fixed in-memory std::streambuf (get/put area = the harness buffer)", "mode=arbitrary: the int32 dims found in the buffer are bounded to [dmin, dmax] (allocation sizes); all other bytes unconstrained",
+                                 "LIFT-C unit: payload length <= 3 elements (uint8: <= 4)"],
+    "bounds": {"ranks": "1..3", "dims": "0..3 per axis (negative dims in dedicated configurations)", "buffer length": "<= 48 bytes", "scalar types": "int8, uint8, uint16, int32, int64, float32, float64",
+               "LIFT-C": "<= 3 elements (uint8: 4), unwind 4..6"},
+    "outside": ["serialization of parameters, features, configurable objects, weak learners and models (std::string / factory / virtual read-write paths): not covered",
+                "bit-identical predictions of re-read models", "file-backed or refilling stream buffers", "tensors with more than 8 elements",
+                "known finding: a single-byte alteration of a NON-final element can keep the hash (hash_combine not injective in its seed); covered by the LIFT-C unit and recorded in known_findings.jsonl"],
     "units": [
         {"engine": "lift", "name": "C15_hash", "shim": "C15_shim.cpp", "driver": "C15_drv.c", "roots": ["k_hash_i64", "k_hash_i32", "k_hash_f64", "k_hash_f32", "k_hash_u8"],
          "quick": [{"func": "h_last_i64", "unwind": 5, "desc": "int64 payload, last element altered arbitrarily"}, {"func": "h_last_f64", "unwind": 5, "desc": "float64 payload (bits)"},
                    {"func": "h_last_i32", "unwind": 5, "desc": "int32 payload"}, {"func": "h_last_u8", "unwind": 6, "desc": "uint8 payload"},
                    {"func": "h_nonfinal_i64", "unwind": 4, "desc": "single-byte alteration of a non-final element (known finding: collisions exist)"}],
          "encoded": ["nano::detail::hash<int64_t/int32_t/double/float/uint8_t>", "nano::detail::hash_combine"]},
+        {"engine": "sbv", "harness": "C15_stream", "sources": ["C15_stream.cpp"],
+         "quick": ["mode=roundtrip;type=i64;rank=1;d0=3", "mode=roundtrip;type=i32;rank=2;d0=2;d1=2", "mode=roundtrip;type=u8;rank=3;d0=2;d1=2;d2=2", "mode=roundtrip;type=f64;rank=2;d0=2;d1=3",
+                   "mode=roundtrip;type=f32;rank=1;d0=3", "mode=roundtrip;type=i8;rank=1;d0=0", "mode=roundtrip;type=u16;rank=2;d0=3;d1=0",
+                   "mode=arbitrary;type=i64;rank=1;len=36;dmax=2", "mode=arbitrary;type=i64;rank=1;len=44;dmax=2", "mode=arbitrary;type=i32;rank=2;len=44;dmax=2", "mode=arbitrary;type=u8;rank=3;len=40;dmax=2",
+                   "mode=arbitrary;type=f64;rank=1;len=44;dmax=2", "mode=arbitrary;type=i64;rank=1;len=10", "mode=arbitrary;type=i32;rank=2;len=27", "mode=arbitrary;type=i64;rank=1;len=40;dmin=-2;dmax=0",
+                   "mode=arbitrary;type=i32;rank=2;len=36;dmin=-1;dmax=1",
+                   "mode=prefix;type=i64;rank=1;d0=2", "mode=prefix;type=i32;rank=2;d0=2;d1=2", "mode=prefix;type=u8;rank=1;d0=0",
+                   "mode=corrupt;type=i64;rank=1;d0=1", "mode=corrupt;type=i64;rank=1;d0=3", "mode=corrupt;type=f64;rank=2;d0=2;d1=2", "mode=corrupt;type=u8;rank=1;d0=4", "mode=corrupt;type=f32;rank=1;d0=2"],
+         "thorough": ["mode=roundtrip;type=%s;rank=%d;d0=%d;d1=%d;d2=%d" % (t, r, a, b, c) for t in ("i64", "i32", "i8", "u8", "u16", "f64", "f32") for (r, a, b, c) in ((1, 3, 1, 1), (2, 2, 3, 1), (3, 2, 2, 2), (1, 0, 1, 1), (2, 3, 0, 1))] +
+                     ["mode=arbitrary;type=%s;rank=%d;len=%d;dmin=%d;dmax=%d" % (t, r, l, lo, hi) for (t, r, l, lo, hi) in (("i64", 1, 36, 0, 2), ("i64", 1, 44, 0, 2), ("i64", 1, 52, 0, 3), ("i32", 2, 44, 0, 2), ("i32", 2, 48, 0, 2),
+                                                                                                                ("u8", 3, 40, 0, 2), ("i8", 1, 31, 0, 3), ("u16", 2, 36, 0, 2), ("f64", 1, 44, 0, 2), ("f32", 2, 44, 0, 2), ("f64", 2, 48, 0, 2),
+                                                                                                                ("i64", 1, 10, 0, 2), ("i32", 2, 27, 0, 2), ("i64", 1, 40, -2, 0), ("i32", 2, 36, -1, 1), ("u8", 3, 36, -1, 1))] +
+                     ["mode=prefix;type=%s;rank=%d;d0=%d;d1=%d" % (t, r, a, b) for (t, r, a, b) in (("i64", 1, 2, 1), ("i32", 2, 2, 2), ("u8", 1, 0, 1), ("f64", 2, 1, 2), ("u16", 1, 3, 1), ("f32", 2, 2, 2))] +
+                     ["mode=corrupt;type=%s;rank=%d;d0=%d;d1=%d" % (t, r, a, b) for (t, r, a, b) in (("i64", 1, 1, 1), ("i64", 1, 3, 1), ("f64", 2, 2, 2), ("u8", 1, 4, 1), ("f32", 1, 2, 1), ("i32", 2, 2, 2), ("i8", 1, 5, 1), ("u16", 1, 3, 1))],
+         "budget": {"quick": {"deadline_s": 100, "max_paths": 20000, "query_s": 20}, "thorough": {"deadline_s": 900, "max_paths": 200000, "query_s": 60}},
+         "encoded": ["nano::write(std::ostream&, tensor_t)", "nano::read(std::istream&, tensor_t)", "nano::write / write_cast / read / read_cast (core/stream.h)", "nano::detail::hash, hash_combine, hash_version",
+                     "tensor_t::resize / tensor_vector_storage_t (Eigen storage)", "std::istream::read, std::ostream::write, basic_ios::clear/setstate (native libstdc++ on concrete stream state)"]},
     ],
 }
 PROPERTIES["C15"]["units"][0]["thorough"] = PROPERTIES["C15"]["units"][0]["quick"]
